@@ -91,7 +91,10 @@ func vBoundTo(sess *session, fid Fid) *vStubEnt {
 	return e
 }
 
+var vC20LiteNames = [][]string{nil, {"a"}, {"x/y"}, {".", "a"}, {"a", "b"}, {"a", "..", "b"}}
+
 func vC20(steps, maxNames, maxLen int, stubFails bool) {
+	lite := maxNames == 0
 	fs := &vStubFS{noFail: !stubFails}
 	sess := SFileSys(fs).(*session)
 	spy := &vSpy{inner: sess}
@@ -107,12 +110,22 @@ func vC20(steps, maxNames, maxLen int, stubFails bool) {
 	for st := 0; st < steps && len(live) > 0; st++ {
 		idx := ndChoice("which", len(live))
 		ent := live[idx]
-		op := ndChoice("op", 8)
+		var op int
+		if lite {
+			op = []int{0, 1, 2, 5, 6, 7}[ndChoice("op", 6)]
+		} else {
+			op = ndChoice("op", 8)
+		}
 		ncalls := len(spy.calls)
 		before := vBoundFids(sess)
 		switch op {
 		case 0: // Walk
-			names := ndNames(maxNames, maxLen)
+			var names []string
+			if lite {
+				names = vC20LiteNames[ndChoice("names", maxLen)]
+			} else {
+				names = ndNames(maxNames, maxLen)
+			}
 			nents := len(fs.ents)
 			qids, ne, err := ent.Walk(vBG, names...)
 			after := vBoundFids(sess)
@@ -148,7 +161,10 @@ func vC20(steps, maxNames, maxLen int, stubFails bool) {
 			c := spy.last()
 			vAssert(len(spy.calls) == ncalls+1 && c.op == "open" && c.fid == ent.fid, "C20: open issues Open on the entry's own fid")
 		case 2: // Create
-			name := ndString("cname", 1+ndChoice("cnamelen", 2))
+			name := "a"
+			if !lite {
+				name = ndString("cname", 1+ndChoice("cnamelen", 2))
+			}
 			ne, _, err := ent.Create(vBG, name, ndU32("perm"), Flag(ndU8("mode")))
 			if len(spy.calls) > ncalls {
 				c := spy.last()
@@ -212,3 +228,7 @@ func vC20(steps, maxNames, maxLen int, stubFails bool) {
 
 func VerifC20_Quick()    { vC20(2, 3, 1, false) }
 func VerifC20_Thorough() { vC20(3, 3, 2, true) }
+
+// long sequences over a small alphabet of walk name lists (maxNames == 0 selects it)
+func VerifC20_DeepQuick()    { vC20(4, 0, 3, false) }
+func VerifC20_DeepThorough() { vC20(4, 0, 6, false) }
